@@ -295,9 +295,11 @@ type World struct {
 	frameTriggers []frameTrigger
 	frameCount    int
 
-	servers  []serverRef
-	ConnMeta map[int]ConnMeta
-	wire     map[int]*wireConn
+	servers   []serverRef
+	rawID     *rawIDState
+	shapeCase *shapeCase
+	ConnMeta  map[int]ConnMeta
+	wire      map[int]*wireConn
 
 	SimCfg       *simrt.Config
 	Inconclusive int
